@@ -86,6 +86,8 @@ type mtrRun struct {
 	sawSplit, sawMerge, sawRebal, sawLower, sawExt, sawPromo bool
 	sawRefused, sawRemoveSplit                               bool
 	dead                                                     bool
+
+	sz *mapSizes // -mode sizes (maptree_sizes.go): slab sizes of the whole legal range, directed rounds on the index level
 }
 
 func (r *mtrRun) viol(what, detail string) {
@@ -308,6 +310,11 @@ func (r *mtrRun) genProbes(used map[uint64]bool) {
 }
 
 func (r *mtrRun) newValue(k *mtrKey, avoid uint64) (atree.Value, uint64, uint64) {
+	if r.sz != nil && r.sz.forceV > 0 { // -mode sizes: the generator chose the value's size
+		n := r.sz.forceV
+		r.sz.forceV = 0
+		return r.valueOfSize(k, n)
+	}
 	rng := r.rng
 	vmax := r.maxInline - k.ksz - 1
 	r.vctr++
@@ -439,6 +446,9 @@ func (r *mtrRun) classify(allocBefore uint64, name string) {
 		}
 	}
 	alloc := r.base.LastIndex(r.addr)
+	if r.sz != nil {
+		r.sizesLogHook(removes, alloc > allocBefore)
+	}
 	if stores >= 3 && alloc > allocBefore {
 		r.rep.Event("ops_splitting_a_slab")
 		r.sawSplit = true
@@ -1418,6 +1428,10 @@ func (r *mtrRun) summarize() {
 }
 
 func cmdMapTree(a Args) {
+	if a.Mode == "sizes" {
+		cmdMapTreeSizes(a)
+		return
+	}
 	tr := NewTrace(a.Out + "/trace.txt")
 	rep := NewReport(a.Prop, a.Seed)
 	rep.Rule = "one OrderedMap per history in phases (grow, churn with value-size changes, shrink to empty in ascending/descending/random digest order, " +
